@@ -17,7 +17,7 @@ MAX_REPORT = 3
 
 PROP_KINDS = {
     "C01": ("STORE", "LOAD", "PREDICT"),
-    "C02": ("MAKE_DATA", "FIT", "PREDICT", "SCRIBBLE_DATA", "SCRIBBLE_PRED", "INSPECT", "STORE", "ABORT_SWEEP"),
+    "C02": ("MAKE_DATA", "FIT", "PREDICT", "SCRIBBLE_DATA", "SCRIBBLE_PRED", "INSPECT", "STORE", "ABORT_SWEEP", "FIT_ABORT_SWEEP"),
     "C03": ("MAKE_DATA", "FIT", "PREDICT"),
     "C04": ("FIT", "PREDICT", "LOAD"),
     "C05": ("PREDICT_PAIR",),
@@ -211,16 +211,33 @@ def check(a, n_runs, n_fleet):
     fatal = []
     pool = runner.make_pool(a.jobs)
     try:
-        futs = [pool.submit(runner.run_seed, j) for j in jobs]
+        futs = {pool.submit(runner.run_seed, j): j for j in jobs}
+        retry = []
         for f in as_completed(futs):
             try:
                 r = f.result()
             except Exception as e:  # noqa: BLE001
                 r = {"fatal": f"pool: {type(e).__name__}: {e}"}
             if r.get("fatal"):
-                fatal.append(r)
+                retry.append((futs[f], r))
             else:
                 recs.append(r)
+        if retry:
+            # a run lost to the harness (dead or timed-out child) is executed once more before it counts
+            pool.shutdown(wait=False, cancel_futures=True)
+            pool = runner.make_pool(a.jobs)
+            futs = {pool.submit(runner.run_seed, j): (j, r0) for j, r0 in retry}
+            for f in as_completed(futs):
+                try:
+                    r = f.result()
+                except Exception as e:  # noqa: BLE001
+                    r = {"fatal": f"pool: {type(e).__name__}: {e}"}
+                if r.get("fatal"):
+                    r["first_attempt"] = futs[f][1].get("fatal")
+                    fatal.append(r)
+                else:
+                    r["retried_after"] = futs[f][1].get("fatal")
+                    recs.append(r)
         recs.sort(key=lambda r: r["seed"])
         fleet_recs = []
         if n_fleet:
